@@ -131,6 +131,8 @@ func registerIntrinsics(e *Engine) {
 		for _, x := range a[0].(Slice).a {
 			if b, ok := x.(*Term); ok {
 				r = mkAnd(r, mkCmp("bvuge", b, mkBV(8, 0x20)))
+			} else if tk, ok := x.(*Token); ok {
+				r = mkAnd(r, mkNot(th.tokCtl(tk)))
 			}
 		}
 		return r
